@@ -198,6 +198,38 @@ theorem markinsecure_lasts_until_the_next_request (s : St) (i c : Nat) (rc : Boo
   · have := reqmod_of_state sd s2 i' c' it
     simpa [hsec2.1] using this
 
+/-! ### Several connections through one proxy -/
+
+/-- A proxy serving several connections one after the other: every connection is run by its own
+`handleLoop` from the initial state of its listener kind (`newSession`: insecure, no values), with
+context ids of its own (`base j`). -/
+def runProxy (s0 : St) (base : Nat → Nat) (conns : List (List Item)) : List (List Ev) :=
+  (List.range conns.length).zip conns |>.map fun (j, items) => runConnOn s0 sd (base j) items
+
+/-- **Connections are independent**: what happens on the `j`-th connection of a proxy depends on its
+own script only - not on what earlier (or later) connections carried: replacing all other
+connections by anything leaves its trace unchanged. In particular a plain connection after a MITM'd
+TLS connection starts insecure, and no session value crosses connections. -/
+theorem connections_are_independent (s0 : St) (base : Nat → Nat) (before before' after after' : List (List Item))
+    (items : List Item) (h : before.length = before'.length) :
+    (runProxy sd s0 base (before ++ items :: after))[before.length]? =
+      (runProxy sd s0 base (before' ++ items :: after'))[before'.length]? := by
+  have key : ∀ (b a : List (List Item)),
+      (runProxy sd s0 base (b ++ items :: a))[b.length]? = some (runConnOn s0 sd (base b.length) items) := by
+    intro b a
+    simp [runProxy, List.getElem?_map, List.getElem?_zip_eq_some, List.getElem?_range]
+  rw [key, key, h]
+
+/-- The first request of any connection on a plain listener is plain, whatever the proxy served before. -/
+theorem new_connection_starts_plain (base : Nat → Nat) (before after : List (List Item)) (it : Item) (rest : List Item) :
+    ∃ evs, (runProxy sd {} base (before ++ (it :: rest) :: after))[before.length]? = some evs ∧
+      Ev.reqmod 0 (base before.length + 0) false false false 0 ∈ evs := by
+  refine ⟨runConnOn {} sd (base before.length) (it :: rest), ?_, ?_⟩
+  · simp [runProxy, List.getElem?_map, List.getElem?_zip_eq_some, List.getElem?_range]
+  · have := cleartext_after_mitm_connect_has_no_tls_state sd (base before.length) (it :: rest) 0 {} it
+      (by intro m hm; omega) (by simp [at?])
+    simpa [runConn, runConnOn] using this
+
 /-! ### Upstream: TLS or nothing -/
 
 /-- **Upstream contact on behalf of a secure session is over TLS or does not happen**: whatever the
